@@ -53,7 +53,11 @@ CHECKS.update({
         design="§8 C06, §9 C05-C07",
         note="Trusted: Verus/Z3, vstd, walker contract (proved, C01), assumed std contracts (str::starts_with as an uninterpreted predicate of the name, clone returns an equal value, FunctionTy equality structural, Expression::loc() == generated spec twin of the pt.rs impl), R5 desugaring of for+continue, parser invariant: a type expression is not an empty string/hex literal.",
         technique="contract-based deductive verification (Verus) of the five real detector functions; bounded native matrix only for counterexamples"),
-    "C08": bounded("Executable never/always contracts of constant_variables, immutable_variables, memory_to_calldata, sstore: 40 write positions (incl. catch bodies, modifier and base-constructor arguments, exponents) x 15 write forms x targets, multi-write files, parameter-write forms x function kinds.", "by-value iteration over HashMap and labelled continue in get_32_byte_storage_variables without a trusted iterator model (second wave, DESIGN §9 C08)", "§8 C08, §9 C08"),
+    "C08": dict(level="proof",
+        text="All functions the four detectors depend on are PROVED with Verus: get_32_byte_storage_variables == sv_table (fold over the contracts' member variables: type expression, not a mapping, minus constant/immutable as requested; labelled `continue 'outer` through the R5 desugaring), sstore == hits(plain assignment whose target identifier is a key of sv_table(true,true)), constant_variables == locations of sv_table(true,false) after removing every name that is the direct target of one of the 15 write forms found by the complete enumeration (C01), memory_to_calldata == per function (not a constructor, with body) the named `memory` parameters minus those assigned directly or through a chain of index accesses, immutable_variables == names of sv_table(true,true) that receive a value-typed plain assignment in a constructor body, minus every name written in any non-constructor function. Lemmas: a written name is never in the final table; an unwritten table name always is; an assigned parameter is never suggested. The bounded native corpus (40 write positions x 15 write forms ...) is the counterexample engine and is not counted.",
+        design="§8 C08, §9 C08",
+        note="Trusted: Verus/Z3, vstd, walker contract (proved, C01), a TRUSTED MODEL of by-value iteration over std HashMap (sequence of remaining entries without duplicates holding exactly the map's entries; order unspecified), String keys obey the hash key model and are equal when their characters are, assumed std contracts (string equality, clone returns an equal value, pt::Type / FunctionTy equality structural, identity into()), R5 desugaring. The property's side condition (state-variable names unique and not shadowed) is what lets name-keyed tables stand for variables.",
+        technique="contract-based deductive verification (Verus) of the real table builder, the four detectors and their helpers (trusted iterator model for HashMap); bounded native corpus only for counterexamples"),
     "C09": dict(level="other",
         text="Mixed: the version GATES are PROVED with Verus (safe_math_optimization and its two wrappers report all SafeMath sites iff v < (0,8,0) resp. v >= (0,8,0) as lexicographic triples and the file attaches SafeMath, never both [lemma]; string_errors reports the require-string literals iff v >= (0,8,4), short_revert_string those of byte length >= 32 iff v < (0,8,4); nothing without a version) relative to spec_version(file); the regex-based extractor get_solidity_version_from_source_unit that computes v is outside Verus (external crate) and is run on every version triple 0.0.0..1.2.40 (thorough: x 6 operator spellings x 4 placements of unrelated pragmas x 3 bodies = exhaustive over the stated domain).",
         design="§8 C09, §9",
